@@ -27,6 +27,9 @@ information is just stored: `paroxython.parse_program.ProgramParser` will proces
 from collections import defaultdict
 from token import DEDENT, INDENT, NEWLINE, STRING
 from tokenize import COMMENT, NL, generate_tokens
+import token as _token
+
+FSTRING_MIDDLE = getattr(_token, "FSTRING_MIDDLE", None)  # Python 3.12+
 from typing import Callable, Dict, List, Tuple, Set
 
 import regex  # type: ignore
@@ -278,6 +281,9 @@ class Cleanup:
                 and tokens[i + 1][0] == NEWLINE
             ):
                 result.append("pass\n")  # replace the docstring by a pass statement
+            elif token == FSTRING_MIDDLE:  # the tokenizer has halved the doubled braces
+                result.append(string.replace("{", "{{").replace("}", "}}"))
+                end_col += string.count("{") + string.count("}")  # two source columns each
             else:
                 result.append(string)
             if not (token in (NL, COMMENT) and previous_token in (INDENT, DEDENT, NEWLINE)):
